@@ -6,7 +6,7 @@
    (Model.run / Model.final): they state what the repair removed and are not tied to the implementation any more. *)
 From Miller Require Import Base.Bytes Base.Record.
 From Miller Require Import C01.Model C01.ModelJson C01.ModelXtab C01.ModelLite C01.ModelPprint C01.ModelMd C01.ProofsTsv C01.ProofsCsv C01.ProofsDkvp C01.ProofsJson C01.ProofsXtab C01.ProofsLite C01.ProofsPprint.
-From Miller Require Import Base.Bytes Base.Record C20.Model C20.Proofs C20.ProofsR C20.Generic C20.Writers C20.ProofsW.
+From Miller Require Import Base.Bytes Base.Record C20.Model C20.Proofs C20.ProofsR C20.Generic C20.Writers C20.ProofsW C20.WritersYaml C20.ProofsChain.
 Open Scope list_scope.
 
 (* LRU invariant, every history, every capacity: no target open twice or suspended twice, never more than max(c,1)
@@ -382,3 +382,27 @@ b
 " /\
   g_err (runG (W_csv false false false ","%char) MWrite 1 ops (fun _ => [])) = true.
 Proof. vm_compute. repeat split; reflexivity. Qed.
+
+(* YAML list mode (the default --oyaml): the writer buffers every record and marshals the sequence at end of stream, so ALL of a
+   target's bytes are owed at Close(), also by handlers that were suspended (evicted) and never used again: each target holds
+   base ++ marshal(exactly the records routed to it, in order), for every marshalling function *)
+Theorem C20_yaml_list_target_is_one_document :
+  forall (marshal : list record -> bytes) md c ops fs0, records_only ops = true ->
+  forall t, touched t ops = true ->
+  finalG (W_yaml_list marshal) md c ops fs0 t = gbase md fs0 t ++ marshal (routed t ops).
+Proof.
+  exact (fun marshal md c ops fs0 Hr t Ht =>
+    let Hd := W_yaml_list_doc marshal in
+    let He := total_writer_no_error (W_yaml_list marshal) (fun recs => Some (marshal recs)) Hd md c ops fs0 Hr (fun recs H => match H with eq_refl => I end) in
+    match proj1 (target_is_one_document (W_yaml_list marshal) (fun recs => Some (marshal recs)) Hd md c ops fs0 Hr He t) Ht with
+    | ex_intro _ d (conj Hdd Hf) => eq_trans Hf (f_equal (fun x => gbase md fs0 t ++ x) (eq_sym (f_equal (fun o => match o with Some y => y | None => d end) Hdd)))
+    end).
+Qed.
+Print Assumptions C20_yaml_list_target_is_one_document.
+
+(* several fan-out stages (tee verb first, then tee verbs / put 'tee > ...') upstream of head -n: every one of them receives
+   EVERY record, the main output is the first n records.  (Flag-propagation abstraction, as C20_main_stream_continues_partial.) *)
+Theorem C20_fanouts_before_early_exit_partial :
+  forall k n cut recs, run_chain (repeat VTee (S k) ++ [VHead n]) cut recs = (repeat recs (S k), firstn n recs).
+Proof. exact fanouts_before_head. Qed.
+Print Assumptions C20_fanouts_before_early_exit_partial.
